@@ -4,7 +4,7 @@ import json, os, subprocess
 ROOT = os.path.dirname(os.path.dirname(os.path.abspath(__file__)))
 E1 = "E1 vsched"; E2 = "E2 loom"; E3 = "E3 vseq"; E4 = "E4 vio"
 T = {
- "C01": (E3, "bounded exhaustive enumeration of scope programs (set/drop/forget/with_local_recorder/panic) on the real thread-local recorder, reference = scope stack", "4.C01"),
+ "C01": (E3 + " + " + E2, "bounded exhaustive enumeration of scope programs (set/drop/forget/with_local_recorder/panic) on the real thread-local recorder, reference = scope stack; loom on the real RecorderOnceCell with the recorder installed beforehand (late installers || lookups)", "4.C01"),
  "C02": (E2, "loom: all C11 executions of install/lookup on the real RecorderOnceCell source up to a preemption bound", "4.C02"),
  "C03": (E3+" + "+E1, "exhaustive pairs/triples over a key universe built through every construction path; all interleavings of first get_hash() calls", "4.C03"),
  "C04": (E2+" + "+E1+" + "+E3, "loom on atomics.rs + controlled-scheduler interleavings of real handles + exhaustive value/op enumeration", "4.C04"),
@@ -61,7 +61,7 @@ m = {
            "add_only": True},
  "engines": [
   {"name": "E1 vsched", "path": "harness/src/vsched.rs", "serves_properties": ["C03","C04","C05","C06","C07","C10","C16","C19","C20"], "kind_free_text": "stateless model checking of the implementation: controlled scheduler over real OS threads, preemption-bounded DFS (iterative context bounding), replay + determinism validation"},
-  {"name": "E2 loom", "path": "loomh/ (cell.rs, atomics.rs), loomb/ (bucket.rs + crossbeam-epoch in loom mode)", "serves_properties": ["C02","C04","C05"], "kind_free_text": "loom 0.7.2 on the repository's own source files (#[path] include), C11 memory model, preemption bound or unbounded"},
+  {"name": "E2 loom", "path": "loomh/ (cell.rs, atomics.rs), loomb/ (bucket.rs + crossbeam-epoch in loom mode)", "serves_properties": ["C01","C02","C04","C05"], "kind_free_text": "loom 0.7.2 on the repository's own source files (#[path] include), C11 memory model, preemption bound or unbounded"},
   {"name": "E3 vseq", "path": "harness/src/vseq.rs", "serves_properties": ["C01","C03","C04","C06","C07","C08","C09","C10","C12","C13","C14","C15","C16","C17","C19"], "kind_free_text": "bounded exhaustive enumeration of operation sequences / inputs / configurations on fresh real objects against a reference model"},
   {"name": "E4 vio", "path": "harness/src/bin", "serves_properties": ["C10","C11","C18"], "kind_free_text": "enumeration of event histories and environment answers against real exporter threads over loopback sockets"},
  ],
